@@ -86,6 +86,29 @@ Section AnyRing.
     gen_tangents_raw o (code_accumulate o) rinv verts uvs normals tris uvtris ntris.
   Proof. exact (code_gen_tangents_raw_is_model o). Qed.
 
+  (* the generated binormal (Gen/Tangents.v: tanw = sign(dot_v3(cross(norm, tan1), tan2)),
+     binorm = cross(norm, tangent) * tanw, the normal taken through the corner's NORMAL index, tan2
+     from the accumulated t-directions through the VERTEX index): it is handedness times
+     normal x tangent, orthogonal to BOTH the corner's normal and its generated tangent - whatever
+     they are -, and a unit vector when normal and tangent are orthogonal unit vectors and the
+     handedness is +1 or -1 (sign of a non-zero number) *)
+  Theorem C18_code_binormal : forall (nrm : vec o -> vec o) (sgn : car o -> car o)
+      (normals tans1 tans2 : list (vec o)) (t n : tri) (c : nat),
+    let N := vnth o normals (corner n c) in
+    let T := nrm (code_corner_tangent o normals tans1 t n c) in
+    let w := code_corner_handedness o sgn normals tans1 tans2 t n c in
+    let B := code_corner_binormal o nrm sgn normals tans1 tans2 t n c in
+    B = scale_r o (cross o N T) w /\
+    dot o N B = rO o /\ dot o T B = rO o /\
+    (dot o N N = rI o -> dot o T T = rI o -> dot o N T = rO o -> rmul o w w = rI o -> dot o B B = rI o).
+  Proof.
+    intros nrm sgn normals tans1 tans2 t n c N T w B.
+    assert (E : B = scale_r o (cross o N T) w) by apply code_corner_binormal_is.
+    split; [exact E|]. rewrite E.
+    destruct (binormal_orthogonal o Rth N T w) as [H1 H2].
+    split; [exact H1|split; [exact H2|]]. apply (binormal_unit o Rth).
+  Qed.
+
   (* why the former `norms[idx] += n` went unnoticed: without a repeated index in the column the
      fancy-indexed += and numpy.add.at agree *)
   Theorem C18_fancy_iadd_agrees_without_repeats : forall a idx vs v,
@@ -101,6 +124,7 @@ Print Assumptions C18_sdir_is_lengyel.
 Print Assumptions C18_code_sdir_is_lengyel.
 Print Assumptions C18_code_corner_tangent.
 Print Assumptions C18_code_tangents_are_model.
+Print Assumptions C18_code_binormal.
 Print Assumptions C18_fancy_iadd_agrees_without_repeats.
 
 (* ---------------------------------------------------------------- integers: witnesses *)
@@ -205,3 +229,11 @@ Proof.
   split; [vm_compute; repeat split|]. split; [vm_compute; reflexivity|].
   intros (H & _). vm_compute in H. discriminate.
 Qed.
+
+(* non-vacuity of C18_code_binormal: normal z, tangent x, right-handed UVs give binormal +y *)
+Example C18_binormal_nonvacuous :
+  let n := (0,0,1)%Z in let t := (1,0,0)%Z in
+  scale_r z_ops (cross z_ops n t) 1%Z = (0,1,0)%Z /\
+  scale_r z_ops (cross z_ops n t) (-1)%Z = (0,-1,0)%Z /\
+  dot z_ops n n = 1%Z /\ dot z_ops t t = 1%Z /\ dot z_ops n t = 0%Z.
+Proof. vm_compute. repeat split. Qed.
